@@ -940,8 +940,10 @@ class World:
             return
         self.n_invocations += 1
         self.clock.on_call(self.n_invocations)
-        st = self.stacks[otap.stack_id]
-        st["n_inv"] += 1
+        if otap.stack_id < len(self.stacks):
+            self.stacks[otap.stack_id]["n_inv"] += 1
+        else:
+            self.probe("objective-invoked-before-the-tree-existed")
         req = self._req_stack[-1] if self._req_stack else None
         if req is not None:
             req.invoked += 1
